@@ -254,10 +254,10 @@ def hashedMiddleLoop (rest : Bool) (cfg : Config) (counts : List Nat) :
 /-- `HashedSearch::SetupMemory(start, counts, config)` -/
 def hashedSetup (rest : Bool) (cfg : Config) (counts : List Nat) (start : Nat) : HashedRegions :=
   let s1 := start + hashedUnigramSize rest (cnt counts 0)
-  let (s2, mids) := hashedMiddleLoop rest cfg counts (List.range' 2 (counts.length - 2)) s1 []
+  let r := hashedMiddleLoop rest cfg counts (List.range' 2 (counts.length - 2)) s1 []
   let last := cnt counts (counts.length - 1)
-  { unigram := start, middles := mids, longest := (s2, probingBuckets cfg.multBits last),
-    stop := s2 + probingTableSize sizeofProbEntry cfg.multBits last }
+  { unigram := start, middles := r.2, longest := (r.1, probingBuckets cfg.multBits last),
+    stop := r.1 + probingTableSize sizeofProbEntry cfg.multBits last }
 
 /-! ## trie search -/
 
@@ -342,6 +342,8 @@ structure MiddleRegion where
   wordBits : Nat
   totalBits : Nat
   quantBits : Nat
+  bhikshaBytes : Nat     -- `Bhiksha::Size(entries + 1, max_next, config)`: header + offset table + alignment slack
+  packedBytes : Nat      -- `BaseSize(entries, max_vocab, quant_bits + inline bits)`
   deriving DecidableEq, Repr
 
 def mkMiddle (array : Bool) (cfg : Config) (quantBits entries maxVocab maxNext start : Nat) : MiddleRegion :=
@@ -354,7 +356,9 @@ def mkMiddle (array : Bool) (cfg : Config) (quantBits entries maxVocab maxNext s
     packed := start + bhikshaSize array (entries + 1) maxNext cfg.bhikshaBits
     wordBits := requiredBits maxVocab
     totalBits := totalBits maxVocab ((quantBits + inl) % 256)
-    quantBits := quantBits }
+    quantBits := quantBits
+    bhikshaBytes := bhikshaSize array (entries + 1) maxNext cfg.bhikshaBits
+    packedBytes := baseSize entries maxVocab ((quantBits + inl) % 256) }
 
 structure TrieRegions where
   quant : Nat
@@ -374,8 +378,8 @@ def quantTableLoop (cfg : Config) : Nat → Nat → List Nat → Nat × List Nat
 
 def quantTables (quant : Bool) (order : Nat) (cfg : Config) (start : Nat) : List Nat :=
   if quant then
-    let (s, l) := quantTableLoop cfg (order - 2) (start + quantHeaderBytes) []
-    l ++ [s]
+    let r := quantTableLoop cfg (order - 2) (start + quantHeaderBytes) []
+    r.2 ++ [r.1]
   else []
 
 /-- the first loop of `TrieSearch::SetupMemory`:
@@ -394,11 +398,11 @@ def trieMiddleLoop (quant array : Bool) (cfg : Config) (counts : List Nat) :
 def trieSetup (quant array : Bool) (cfg : Config) (counts : List Nat) (start : Nat) : TrieRegions :=
   let s1 := start + quantSize quant counts.length cfg
   let s2 := s1 + trieUnigramSize (cnt counts 0)
-  let (s3, mids) := trieMiddleLoop quant array cfg counts (List.range' 2 (counts.length - 2)) s2 []
+  let r := trieMiddleLoop quant array cfg counts (List.range' 2 (counts.length - 2)) s2 []
   let lb := longestBits quant cfg
-  { quant := start, quantTables := quantTables quant counts.length cfg start, unigram := s1, middles := mids,
-    longest := (s3, requiredBits (cnt counts 0), totalBits (cnt counts 0) lb),
-    stop := s3 + longestSize lb (cnt counts (counts.length - 1)) (cnt counts 0) }
+  { quant := start, quantTables := quantTables quant counts.length cfg start, unigram := s1, middles := r.2,
+    longest := (r.1, requiredBits (cnt counts 0), totalBits (cnt counts 0) lb),
+    stop := r.1 + longestSize lb (cnt counts (counts.length - 1)) (cnt counts 0) }
 
 /-! ## whole model: `GenericModel::Size`, `SetupMemory`, the writer and the loader -/
 
